@@ -1,6 +1,6 @@
 """C16 — String is a C-string value: heap-only reallocation, sizes cover writes,
 search results checked, delegation to the C library on the object's buffer."""
-from . import ir, util, poly
+from . import ir, util, poly, cint
 from .report import site
 from .rules_c12 import guards_of, dominated_by_guard, throw_only, succ_of
 
@@ -469,6 +469,119 @@ def check_delegation(P, ctx):
     ctx.floor(rule, 5)
 
 
+class SA(Exception):
+    pass
+
+
+def eval_string_self_assign(P):
+    """String's assign with the object itself as the source (a Tree or Table re-assigns a key it already holds from the caller's key, which
+    may be that very key object): afterwards the String holds what it held.  Evaluated at the level of characters; realloc keeps the block
+    where it is when the size does not grow beyond it (the only case the unchanged code relies on), a shrunk block loses its tail.
+    -> (mismatch, unsupported)"""
+    fn = P.fn(P.slot('String', 'Assign', 'assign'))
+    bad, unsup = None, None
+    for text in (b'key', b'', b'a longer key value'):
+        atoms = {('global', 'NULL'): 0, ('elem', 'self', 0, 'val'): ('ep', 'buf', 0), ('elem', 'hdr', 0, 'alloc'): None}
+        cap = {'buf': len(text) + 1}
+        for i, c in enumerate(text + b'\0'):
+            atoms[('elem', 'buf', i, None)] = c
+
+        def cstr(v, it):
+            v = cint._strp(v)
+            if not (isinstance(v, tuple) and v[0] == 'ep'):
+                raise cint.NoEval('string operand %r' % (v,))
+            out = []
+            for k in range(200):
+                if isinstance(v[1], tuple) and v[1][0] == 'strlit':
+                    bs = v[1][1].encode('latin-1', 'replace') + b'\0'
+                    c = bs[v[2] + k] if v[2] + k < len(bs) else 0
+                else:
+                    if v[1] in cap and v[2] + k >= cap[v[1]]:
+                        raise SA('reads past the end of the string\'s block (no terminator inside it)')
+                    c = it.atoms.get(('elem', v[1], v[2] + k, None))
+                    if c is None:
+                        raise SA('reads a byte of the block that was never written')
+                if c == 0:
+                    return bytes(out)
+                out.append(c & 0xff)
+            raise SA('unterminated string')
+
+        def put(d, data, it):
+            for k, c in enumerate(data):
+                if d[1] in cap and d[2] + k >= cap[d[1]]:
+                    raise SA('writes byte %d of a block of %d bytes' % (d[2] + k, cap[d[1]]))
+                it.atoms[('elem', d[1], d[2] + k, None)] = c
+
+        def call(nm, e, it):
+            if nm == 'header':
+                return ('ep', 'hdr', 0)
+            if nm in ('c_str', 'String_C_Str'):
+                if it.ev(e[2][0]) != ('ep', 'self', 0):
+                    raise cint.NoEval('c_str of something else')
+                return it.atoms[('elem', 'self', 0, 'val')]
+            if nm == 'strlen':
+                return len(cstr(it.ev(e[2][0]), it))
+            if nm == 'realloc':
+                p, n = it.ev(e[2][0]), it.ev(e[2][1])
+                if p != ('ep', 'buf', 0):
+                    raise cint.NoEval('realloc of %r' % (p,))
+                # in place; bytes beyond the new size are gone
+                for k in range(n, cap['buf']):
+                    it.atoms.pop(('elem', 'buf', k, None), None)
+                cap['buf'] = n
+                return p
+            if nm in ('strcpy', 'strcat'):
+                d, s_ = it.ev(e[2][0]), it.ev(e[2][1])
+                data = cstr(s_, it) + b'\0'
+                if nm == 'strcat':
+                    d = ('ep', d[1], d[2] + len(cstr(d, it)))
+                put(d, data, it)
+                return it.ev(e[2][0])
+            if nm in ('memcpy', 'memmove'):
+                d, s_, n = it.ev(e[2][0]), cint._strp(it.ev(e[2][1])), it.ev(e[2][2])
+                data = bytes((it.atoms.get(('elem', s_[1], s_[2] + k, None)) or 0) & 0xff for k in range(n))
+                put(d, data, it)
+                return d
+            if nm in ('format_to', 'print_to_with', 'format_to_va'):
+                raise cint.NoEval('formatted write')
+            raise cint.NoEval('call %s' % nm)
+        it = cint.CInt(P, fn, atoms=atoms, call=call, recurse=True, strict=True, max_steps=2000)
+        it.atoms = atoms
+        try:
+            it.atoms[('elem', 'hdr', 0, 'alloc')] = it.ev(('enum', 'AllocHeap'))
+        except cint.NoEval:
+            it.atoms[('elem', 'hdr', 0, 'alloc')] = 3
+        lab = 'a heap String holding %r assigned from itself' % text.decode()
+        try:
+            r = it.run([('ep', 'self', 0), ('ep', 'self', 0)])
+        except SA as x:
+            bad = bad or '%s: %s' % (lab, x)
+            continue
+        if r[0] != 'ret':
+            unsup = unsup or '%s: %s' % (lab, r[1])
+            continue
+        try:
+            got = cstr(atoms[('elem', 'self', 0, 'val')], it)
+        except SA as x:
+            bad = bad or '%s: afterwards %s' % (lab, x)
+            continue
+        if got != text:
+            bad = bad or '%s: afterwards it holds %r' % (lab, got.decode('latin-1'))
+    return bad, unsup
+
+
+
+def check_self_assign(P, ctx, rule='C16.assign-from-itself'):
+    fn = P.fn(P.slot('String', 'Assign', 'assign'))
+    ctx.fn(fn)
+    bad, unsup = eval_string_self_assign(P)
+    if unsup and not bad:
+        ctx.undecided(rule, fn['name'], site(fn), 'leaves the evaluated fragment: ' + unsup)
+    else:
+        ctx.check(bad is None, rule, fn['name'], site(fn), 'a String assigned from itself holds what it held (evaluated at character level)', [bad] if bad else None)
+    ctx.floor(rule, 1)
+
+
 def run(ctx, load):
     Pp = load(['src/Show.c', 'src/String.c', 'src/File.c', 'src/Num.c', 'src/Exception.c'], 'default')
     P = load(UNITS, 'default')
@@ -479,6 +592,7 @@ def run(ctx, load):
     ctx.floor('C16.heap-only', 12)
     check_refusal_covers_mutation(P, ctx, 'src/String.c', 'val', 'C16.heap-only', 'String')
     ctx.floor('C16.heap-only', 18)
+    check_self_assign(P, ctx)
     # hash is a function of the characters alone: hash_data reads inside the value and hashes the same bytes the same at any address (C10)
     from .rules_c10 import check_hash_data
     Ph = load(None, 'default')
